@@ -2,6 +2,7 @@ package generator
 
 import (
 	"fmt"
+	"go/constant"
 	"go/types"
 	"regexp"
 	"sort"
@@ -145,6 +146,19 @@ func ReplaceEnums(ana *analysis.Analysis, content string) string {
 		typeName, varName, _ := strings.Cut(s, ".")
 		enum := ana.GetByName(typeName).(*analysis.Enum)
 		enumValue := enum.Get(varName)
-		return fmt.Sprintf("%s /* %s.%s */", enumValue.Const.Val().ExactString(), typeName, varName)
+		return fmt.Sprintf("%s /* %s.%s */", SQLLiteral(enumValue.Const.Val()), typeName, varName)
 	})
+}
+
+// SQLLiteral returns the SQL literal for a Go constant:
+// numbers are written as is, strings use single quotes (escaped by doubling them)
+func SQLLiteral(val constant.Value) string {
+	switch val.Kind() {
+	case constant.String:
+		return "'" + strings.ReplaceAll(constant.StringVal(val), "'", "''") + "'"
+	case constant.Float:
+		return val.String()
+	default:
+		return val.ExactString()
+	}
 }
